@@ -14,7 +14,7 @@ P_ReadsFail(o) == o.state = "lost" => (o.pendingReads = 0 /\ (o.consumer => o.co
 \* the consumer is done exactly when it has been given the expected number of bytes, all of them genuine
 \* (trailing empty records carry no bytes, so they need not have arrived)
 P_Consumer(o) == o.consumerDone = "ok" => (IsPrefix(o.got, o.sent) /\ o.consumerBytes = o.expectedBytes /\ o.gotBytes = o.expectedBytes)
-P_AllWhenClean(o) == /\ (o.atTamper < 0 /\ o.clean /\ o.state = "records") => o.got = SubSeq(o.sent, 1, Len(o.got)) /\ o.inflight + Len(o.got) = Len(o.sent)
+P_AllWhenClean(o) == /\ (o.atTamper < 0 /\ o.clean /\ o.state = "records") => IsPrefix(o.got, o.sent) /\ o.inflight + Len(o.got) = Len(o.sent)
                      \* an established connection that nobody tampered with, cut or closed stays up - however long the
                      \* transfer takes (envClosed: the schedule cut / closed it, or the application closed it)
                      /\ (o.atTamper < 0 /\ o.clean /\ ~o.envClosed) => o.state = "records"
